@@ -5,6 +5,7 @@
 import Dsi.Session
 import Dsi.Glue.MiscDriver
 import Dsi.Glue.DispatchDriver
+import Dsi.Glue.StatsDriver
 open Dsi
 
 def kv (args : List String) (key : String) : Option String :=
@@ -23,6 +24,11 @@ def runS (cfgs : List String) (ops : List (List String)) : String :=
   let copy := kv cfgs "copy" != some "0"
   let cap := (kv cfgs "cap").bind num?
   let data := ((kv cfgs "data").bind hexBytes?).getD []
+  -- rb=adapter: the reader sits on a WordAdapter over a byte Cursor holding whole words: it is
+  -- always strict (read_exact fails at the end). wb=adapter / wb=rec (byte-stream adapter over a
+  -- Cursor, recording word sink) deliver the same words as the growable vector.
+  let adapter := kv cfgs "rb" == some "adapter"
+  let strict := strict || adapter
   let m3 := machL3 e ww rw bitReader strict checks cap copy 8
   let m1 := machL1 e ww rw bitReader strict checks cap
   let s3 : Sess (BufW ww) (RState rw) :=
@@ -61,6 +67,10 @@ def handle (line : String) : String :=
     | "TB" :: rest => handleTB rest
     | "D" :: rest => handleD rest
     | "T" :: rest => handleT rest
+    | "ST" :: args => handleST args
+    | "FC" :: args => handleFC args
+    | "LEN" :: args => handleLEN args
+    | "LEN1" :: args => handleLEN1 args
     | _ => "bad-request"
   | _ => "bad-request"
 
